@@ -57,6 +57,11 @@ OrGroups == {Or(Tag("t1", "=", "x"), Tag("t2", "=", "y")), Or(Tag("t1", "!=", "x
 NTAlpha ==
   IF NTLevel = 9 THEN OrGroups ELSE
   {Tag("t1", "=", "x"), Or(Tag("t1", "=", "x"), Tag("t2", "=", "y")), Bool(TRUE)}
+  \* OR groups with a nested OR that is constantly true (three-way OR, with and without inner parentheses):
+  \* the residual of the inner group must absorb the outer OR, not vanish from it
+  \cup (IF NTLevel >= 1 THEN {Or(Or(Bool(TRUE), Tag("t1", "=", "x")), Tag("t2", "=", "y")),
+                              Or(Tag("t2", "=", "y"), Or(Tag("t1", "=", "x"), Bool(TRUE))),
+                              Or([Or(Bool(TRUE), Bool(TRUE)) EXCEPT !.par = FALSE], Tag("t1", "=", "y"))} ELSE {})
   \cup (IF NTLevel >= 1 THEN {Tag("t2", "!=", "y"), Fld(">", 1), Bool(FALSE),
                               Or(Tag("t1", "=", "y"), Bool(FALSE)), Or(Fld("<=", 1), Tag("t2", "!=", "x"))} ELSE {})
   \cup (IF NTLevel >= 2 THEN {Tag(t, op, v) : t \in {"t1", "t2"}, op \in {"=", "!="}, v \in {"x", "y"}}
